@@ -27,7 +27,17 @@ var subjects = []string{
 }
 var cctypes = []string{"", "feat", "fix", "docs", "", "", "refactor", "chore", "", "feat", "fix", "docs", "feat", "perf", "style"}
 var dirs = []string{"", "src/", "src/main/java/", "docs/", "my dir/", "d 1 2/"}
-var bases = []string{"a.txt", "B.java", "readme.md", "my file.txt", "x 3 4.txt", "Main.java", "util.go", "c.txt"}
+var bases = []string{"a.txt", "B.java", "readme.md", "my file.txt", "x 3 4.txt", "Main.java", "util.go", "c.txt", "naïve.txt", "文档 1.md"}
+
+// a path git prints in quoted form (bytes outside ASCII): such files are created, modified and deleted, never renamed
+func quotedByGit(p string) bool {
+	for i := 0; i < len(p); i++ {
+		if p[i] >= 0x80 {
+			return true
+		}
+	}
+	return false
+}
 
 type world struct {
 	r     *rand.Rand
@@ -130,7 +140,7 @@ func genHistory(r *rand.Rand, id string, mode string, plain bool) Case {
 				delete(w.live, p)
 				w.gone = append(w.gone, p)
 				touched[p] = true
-			case k <= 8 && w.live[p] > 0:
+			case k <= 8 && w.live[p] > 0 && !quotedByGit(p):
 				var np string
 				switch r.Intn(6) {
 				case 4: // into the parent directory (git prints `dir/{sub => }/file`)
@@ -151,7 +161,7 @@ func genHistory(r *rand.Rand, id string, mode string, plain bool) Case {
 				default:
 					np = w.fresh()
 				}
-				if _, exists := w.live[np]; exists || touched[np] || np == p {
+				if _, exists := w.live[np]; exists || touched[np] || np == p || quotedByGit(np) {
 					continue
 				}
 				h.Ops = append(h.Ops, Op{Op: "rename", Path: p, To: np})
